@@ -45,6 +45,12 @@ func NewDG12(data []byte) (*DG12, error) {
 		return nil, fmt.Errorf("[NewDG12] error: %w", err)
 	}
 
+	// the file is ONE data object: the outer tag is that of the first object, and anything behind it would be
+	// covered by the hash in the security object but never shown
+	if len(nodes.Nodes()) != 1 {
+		return nil, fmt.Errorf("[NewDG12] file must consist of exactly one data object (found %d)", len(nodes.Nodes()))
+	}
+
 	rootNode := nodes.NodeByTag(DG12Tag)
 
 	if !rootNode.IsValidNode() {
